@@ -147,6 +147,7 @@ func runMutantChild(id string, d *propDef, seedDir string) int {
 		}
 		c := &Ctx{P: p, Prop: id, Tier: "quick"}
 		flattenFields, flattenPrefer = false, ""
+		resetFlatPaths()
 		d.Run(c)
 		c.finish()
 		seen := map[string]bool{}
